@@ -58,3 +58,12 @@ chk("C04", "static analysis: matcher restart-completeness lint, scan-completenes
     "tables, and 16 delegation rows tie the public str/bytes functions (all four pattern kinds) to the matchers.",
     "Trusted: rustc MIR; C05's prefix test. A matcher of any other shape (e.g. KMP) is not decided: the SCAN floor then fails "
     "closed. Reverse search with an empty pattern is outside the property.")
+chk("C12", "static analysis: exact byte classes from MIR branch conditions, recurrence/overflow-flag dataflow, loop-exit decision tables",
+    "For the 12 integer parsers: the only byte consumed before the first digit is '-' (signed) or nothing (so '+' is never "
+    "accepted), first-digit and loop-digit classes are exactly 30-39, the accumulator recurrence is num*10+(byte-'0') in the "
+    "unsigned twin with both overflow flags reaching Err(ParseInteger), the loop-exit table per type is "
+    "(negative: n<=|MIN| -> wrapping_neg, positive: n<=MAX, unsigned: n) with the limits computed from the type width, and "
+    "the new remainder is str_from(old, len(old)-len(unparsed)). parse_bool must spell exactly true/false and skip their "
+    "lengths; the 13 whole-string wrappers return Ok only when the parser succeeded with an empty remainder. Symbolic in the "
+    "input, so every string and every width is covered.",
+    "Trusted: rustc MIR; Horner recurrence is checked as the one-iteration relation (induction over digits is the written step).")
